@@ -378,6 +378,28 @@ impl Adapter for Pst13A {
 pub struct HyraxA;
 impl Adapter for HyraxA {
     type F = EdFr; type P = DenseMultilinearExtension<EdFr>; type PC = HyraxPCS;
+    fn extra_commit_draws(c: &Case) -> usize { let nv = opt_usize(c.str1("num_vars")).unwrap_or(0); c.usize1("n") * (1usize << (nv / 2)) }
+    fn open_draws(c: &Case, npolys: usize) -> usize { let nv = opt_usize(c.str1("num_vars")).unwrap_or(0); 4 * npolys * ((1usize << (nv / 2)) + 3) }
+    fn key_obs(ck: &CK<Self>, _vk: &VK<Self>, out: &mut Out) {
+        let mut b: Vec<String> = vec!["ED".into()];
+        b.extend(ck.com_key.iter().map(ser_hex));
+        b.push(ser_hex(&ck.h));
+        out.input("basis", &b);
+    }
+    fn comm_obs(i: usize, cm: &Cm<Self>, st: &St<Self>, out: &mut Out) {
+        use ark_serialize::CanonicalDeserialize;
+        out.obs(&format!("c.{}", i), "L:basis", &cm.row_coms.iter().map(ser_hex).collect::<Vec<_>>());
+        let bytes = ser_bytes(st, true);
+        if let Ok(rands) = Vec::<EdFr>::deserialize_compressed(&bytes[..]) { out.obs(&format!("rand.{}", i), "F", &fs_to_strs(&rands)); }
+    }
+    fn proof_obs(name: &str, pf: &Pf<Self>, out: &mut Out) {
+        out.obs1(&format!("{}.n", name), "N", pf.len().to_string());
+        for (k, p) in pf.iter().enumerate() {
+            out.obs(&format!("{}.{}.coms", name, k), "L:basis", &[ser_hex(&p.com_eval), ser_hex(&p.com_d), ser_hex(&p.com_b)]);
+            out.obs(&format!("{}.{}.z", name, k), "F", &fs_to_strs(&p.z));
+            out.obs(&format!("{}.{}.s", name, k), "F", &[f_to_str(&p.z_d), f_to_str(&p.z_b), f_to_str(&p.r_eval)]);
+        }
+    }
     fn size_shape_comm(cm: &Cm<Self>) -> Vec<String> { vec![cm.row_coms.len().to_string()] }
     fn size_shape_proof(pf: &Pf<Self>) -> Vec<String> {
         let mut v = vec![pf.len().to_string()];
